@@ -949,7 +949,10 @@ def main(tier):
         'interruption points are the write effects of the migration functions themselves (not of the rest of `tally init`): a '
         'crash and a single OSError at every step incl. each close/flush and every step that runs while a file is still open, '
         'with the buffer flushed up to chunk boundaries (quick: 3-5 cuts per text; thorough: every 3rd byte of the settings line)',
-        'shutil.move is one atomic step (same file system); its copy+delete fallback across devices is outside the model']
+        'shutil.move is one atomic step in the Coq model (same file system); its copy+delete fallback across devices '
+        '(rename -> EXDEV) and budgets whose settings.yaml names a *.csv merchants_file explicitly are run under the shim '
+        'and judged by the direct oracle only (shapes layoutx-*, csvkey-*: every mkdir / per-file copy / rmtree step is an '
+        'interruption point), not compared with the model']
     with CoqLock():
         order_vo_times()
     res = run.proof_step(COQ_FILES, extra_trusted=[
